@@ -72,6 +72,11 @@ type LockMon struct {
 	gateHit   chan struct{}
 	gateGo    chan struct{}
 	gatePending bool
+	// hook gate (ArmHookGate)
+	hgGid        int64
+	hgEv, hgN    int
+	hgCnt        int
+	hgHit, hgGo  chan struct{}
 }
 
 type retryState struct {
@@ -336,6 +341,14 @@ func hookEvent(ev int, t interface{}, inum uint64) {
 			close(m.gateHit)
 		}
 	}
+	// hook gate: park this goroutine at the n-th event of one kind
+	if m.hgGo != nil && ts.gid == m.hgGid && ev == m.hgEv {
+		m.hgCnt++
+		if m.hgCnt == m.hgN {
+			park = m.hgGo
+			close(m.hgHit)
+		}
+	}
 	dl := m.deadlock
 	var y uint64
 	if doYield && m.yieldSeed != 0 {
@@ -492,6 +505,28 @@ func (m *LockMon) ArmGate(n int) chan struct{} {
 	m.gateHit = make(chan struct{})
 	m.gateGo = make(chan struct{})
 	return m.gateHit
+}
+
+// ArmHookGate parks the calling goroutine at its n-th hook event of kind ev
+// (e.g. the release of its first lock, its pre-commit point).
+func (m *LockMon) ArmHookGate(ev, n int) chan struct{} {
+	g := goid()
+	m.mu.Lock()
+	defer m.mu.Unlock()
+	m.hgGid, m.hgEv, m.hgN, m.hgCnt = g, ev, n, 0
+	m.hgHit = make(chan struct{})
+	m.hgGo = make(chan struct{})
+	return m.hgHit
+}
+
+func (m *LockMon) OpenHookGate() {
+	m.mu.Lock()
+	g := m.hgGo
+	m.hgGo = nil
+	m.mu.Unlock()
+	if g != nil {
+		close(g)
+	}
 }
 
 func (m *LockMon) OpenGate() {
